@@ -22,7 +22,7 @@ CONSTANTS NFiles,        \* named files 1..NFiles, each holding one definition D
           Level          \* "warning" or "error" (--level)
 
 FileFaults == {"none", "missing", "unreadable", "badpragma", "syntax", "include"}
-DefFaults == {"none", "tuple", "anon", "paramdup", "duplicate"}
+DefFaults == {"none", "tuple", "anon", "paramdup", "duplicate", "dupfunc"}   \* dupfunc: a function with the name of a template
 \* class -> [id, stem of the message, located (has a primary label)]
 ClassInfo == [c \in (FileFaults \cup DefFaults \cup {"mains"}) \ {"none"} |->
    CASE c = "missing" -> [id |-> "P1000", stem |-> "Failed to open file", located |-> FALSE]
@@ -34,6 +34,7 @@ ClassInfo == [c \in (FileFaults \cup DefFaults \cup {"mains"}) \ {"none"} |->
      [] c = "anon" -> [id |-> "TAC01", stem |-> "", located |-> TRUE]
      [] c = "paramdup" -> [id |-> "CS0002", stem |-> "declared multiple times", located |-> TRUE]
      [] c = "duplicate" -> [id |-> "T2008", stem |-> "Duplicated function or template", located |-> TRUE]
+     [] c = "dupfunc" -> [id |-> "T2008", stem |-> "Duplicated function or template", located |-> TRUE]
      [] c = "mains" -> [id |-> "P1002", stem |-> "Multiple main components", located |-> FALSE]]
 
 VARIABLES ffault, dfault, mains,            \* the scenario
@@ -84,7 +85,7 @@ ReadFile == /\ phase = "read" /\ next <= NFiles
 \* main components, duplicate names, removal of syntactic sugar
 Merge == /\ phase = "read" /\ next > NFiles
          /\ LET present == {f \in F : defState[f] = "pending"}
-                dups == {f \in present : dfault[f] = "duplicate"}
+                dups == {f \in present : dfault[f] \in {"duplicate", "dupfunc"}}
                 sugar == {f \in present : dfault[f] \in {"tuple", "anon"}} IN
             /\ defState' = [f \in F |-> IF f \in sugar THEN "dropped" ELSE defState[f]]
             /\ shown' = shown \cup (IF EffMains >= 2 THEN {"mains"} ELSE {}) \cup {dfault[f] : f \in dups \cup sugar}
